@@ -489,27 +489,7 @@ func runC04(c *Ctx) {
 		}
 		R.Ob(c.siteKey(site, "verdict source"), c.P.InstrPos(site), ok, why)
 	}
-	if f := c.A.Func("dataErrorToStatus"); f != nil {
-		allInstrs(f, func(in ssa.Instruction) {
-			r, ok := in.(*ssa.Return)
-			if !ok || len(r.Results) != 3 {
-				return
-			}
-			if code, ok := constInt(r.Results[0]); ok {
-				if code/100 == 2 {
-					c.obUnreach("positive status", in, `param0 != nil`)
-				} else {
-					c.obUnreach("negative status", in, `param0 == nil`)
-					R.Ob(c.siteKey(in, "generic data error is 554"), c.P.InstrPos(in), code == 554, fmt.Sprintf("generic data error code %d", code))
-				}
-			} else {
-				c.obUnreach("backend status", in, `param0 == nil`)
-				R.Ob(c.siteKey(in, "SMTPError fields passed through"), c.P.InstrPos(in),
-					describe(r.Results[0]) == "SMTPError.Code" && describe(r.Results[1]) == "SMTPError.EnhancedCode" && describe(r.Results[2]) == "SMTPError.Message",
-					"returns "+describe(r.Results[0])+", "+describe(r.Results[1])+", "+describe(r.Results[2]))
-			}
-		})
-	}
+	ruleDataErrorToStatus(c)
 	// the BDAT result channel read by the LAST branch is the one created with the pipe
 	for _, site := range c.Sites("st:Conn.dataResult") {
 		_, _, v := storedField(site)
@@ -690,6 +670,35 @@ func ruleGoCapture(c *Ctx) {
 			sort.Strings(flds)
 			R.Ob(funcName(body)+"/no transaction-scoped field reads", c.P.InstrPos(in), len(flds) == 0,
 				fmt.Sprintf("goroutine re-reads %v (e.g. at %s) when the backend finishes: after RSET/abort and a new transaction these hold the NEXT message's channel/recipients/status, so a stale verdict is delivered to the wrong message (and the access races with the command loop)", flds, where))
+		})
+	}
+}
+
+// ruleDataErrorToStatus is shared by C04 (verdict) and C17 (error fidelity for the data phase).
+func ruleDataErrorToStatus(c *Ctx) {
+	R := c.R
+	if f := c.A.Func("dataErrorToStatus"); f != nil {
+		allInstrs(f, func(in ssa.Instruction) {
+			r, ok := in.(*ssa.Return)
+			if !ok || len(r.Results) != 3 {
+				return
+			}
+			if code, ok := constInt(r.Results[0]); ok {
+				if code/100 == 2 {
+					c.obUnreach("positive status", in, `param0 != nil`)
+				} else {
+					c.obUnreach("negative status", in, `param0 == nil`)
+					R.Ob(c.siteKey(in, "generic data error is 554"), c.P.InstrPos(in), code == 554, fmt.Sprintf("generic data error code %d", code))
+					kind, class := enhancedArg(r.Results[1])
+					R.Ob(c.siteKey(in, "generic data error has class 5 enhanced code"), c.P.InstrPos(in), kind == "const" && class == 5 || kind == "notset", fmt.Sprintf("generic data error enhanced code is %s/%d", kind, class))
+					R.Ob(c.siteKey(in, "generic data error carries the error text"), c.P.InstrPos(in), strings.Contains(describe(r.Results[2]), "invoke:error.Error"), "generic data error text is "+describe(r.Results[2])+": the backend's error text is lost")
+				}
+			} else {
+				c.obUnreach("backend status", in, `param0 == nil`)
+				R.Ob(c.siteKey(in, "SMTPError fields passed through"), c.P.InstrPos(in),
+					describe(r.Results[0]) == "SMTPError.Code" && describe(r.Results[1]) == "SMTPError.EnhancedCode" && describe(r.Results[2]) == "SMTPError.Message",
+					"returns "+describe(r.Results[0])+", "+describe(r.Results[1])+", "+describe(r.Results[2]))
+			}
 		})
 	}
 }
